@@ -112,7 +112,7 @@ func init() {
 		Level: "fault_enumeration",
 		Rule: "every module of the corpus (atoms, repo testdata, llvm-stress programs in thorough) is written with WriteTo to a writer that fails after exactly k accepted bytes, " +
 			"for every k in [0,len] (all offsets when len<=6000, else 400 PRNG offsets plus boundaries), once with a sentinel error, once with io.ErrShortWrite, and once with a writer whose failing call accepts its whole chunk and returns (len(p), err); the corpus includes a synthetic module with a function body of more than 64 KiB; " +
-			"Kind stringwriter: the failing writer also has WriteString, WriteByte and ReadFrom (as *os.File, *bufio.Writer, *bytes.Buffer have), all on the same byte budget, at every offset. Failure kinds also include the errors of real destinations at 25 offsets per module (io.ErrClosedPipe, EPIPE bare and in *os.PathError, io.EOF, os.ErrClosed, ENOSPC). First output: a second, never-printed parse of every input, and API-built modules whose numbers are still to be assigned (block addresses used from outside the function, metadata definitions with ID -1 attached to a global, a function and an instruction; never printed, or printed and then edited) are written once to a non-failing writer and to writers failing at every offset: what WriteTo wrote is what String() returns afterwards. " +
+			"Real destinations: /dev/full, a pipe whose reader goes away after 0, 1 or half of the bytes, a closed file and a regular file, through an *os.File wrapper that records what the descriptor accepted and its first error: count, error identity and no write after the failure. Kind stringwriter: the failing writer also has WriteString, WriteByte and ReadFrom (as *os.File, *bufio.Writer, *bytes.Buffer have), all on the same byte budget, at every offset. Failure kinds also include the errors of real destinations at 25 offsets per module (io.ErrClosedPipe, EPIPE bare and in *os.PathError, io.EOF, os.ErrClosed, ENOSPC). First output: a second, never-printed parse of every input, and API-built modules whose numbers are still to be assigned (block addresses used from outside the function, metadata definitions with ID -1 attached to a global, a function and an instruction; never printed, or printed and then edited) are written once to a non-failing writer and to writers failing at every offset: what WriteTo wrote is what String() returns afterwards. " +
 			"a case is (module, k, failure kind); it is non-trivial when 0<k<len, i.e. the failure hits in the middle of the output; distinct = distinct (module digest, k, kind)",
 		Gen:           genC19,
 		MinNontrivial: 1000,
@@ -142,6 +142,7 @@ func genC19(ctx *fw.Ctx) []fw.Case {
 		cases = append(cases, fw.Case{ID: s.ID, Run: func(r *fw.Rec) { runC19(r, s) }})
 	}
 	cases = append(cases, fw.Case{ID: "api/first-writeto", Run: c19APIFirstWriteTo})
+	cases = append(cases, fw.Case{ID: "real-destinations", Run: c19RealDestinations})
 	return cases
 }
 
@@ -397,4 +398,153 @@ func runC19(r *fw.Rec, s corpus.Source) {
 		r.Tally("modules", "all_offsets_enumerated")
 	}
 	r.Sample(map[string]interface{}{"module": s.ID, "len": L, "offsets_tried": len(offs), "kinds": kinds, "head": fw.Trunc(T, 120)})
+}
+
+// recFile is an *os.File that records what the operating system accepted and
+// the first error it returned (it keeps the optional methods of *os.File that
+// a printer may look for: WriteString).
+type recFile struct {
+	f        *os.File
+	accepted int64
+	firstErr error
+	after    int
+}
+
+func (w *recFile) note(n int, err error) {
+	if w.firstErr != nil && n > 0 {
+		w.after++
+	}
+	w.accepted += int64(n)
+	if err != nil && w.firstErr == nil {
+		w.firstErr = err
+	}
+}
+
+func (w *recFile) Write(p []byte) (int, error) {
+	n, err := w.f.Write(p)
+	w.note(n, err)
+	return n, err
+}
+
+func (w *recFile) WriteString(s string) (int, error) {
+	n, err := w.f.WriteString(s)
+	w.note(n, err)
+	return n, err
+}
+
+// c19RealDestinations writes modules to destinations of the operating system
+// that fail by themselves: /dev/full (no space), a pipe whose reader goes away
+// after k bytes, a file that was closed, a read-only descriptor. WriteTo must
+// report the bytes the descriptor accepted and the error it gave first
+// (identity), and write nothing after it. Which byte the failure falls on is
+// the kernel's business (pipe buffers) and takes no part in the verdict.
+func c19RealDestinations(r *fw.Rec) {
+	srcs := baseSources()
+	n := 0
+	for _, s := range srcs {
+		if n >= r.Ctx().Pick(12, 120) {
+			break
+		}
+		text, err := s.Text()
+		if err != nil {
+			continue
+		}
+		m, perr, pmsg := parseGuard(s.ID, text)
+		if perr != nil || pmsg != "" || m == nil {
+			continue
+		}
+		T, pp := printGuard(m)
+		if pp != "" || len(T) < 64 {
+			continue
+		}
+		n++
+		judge := func(kind string, w *recFile, got int64, werr error, mustFail bool) {
+			r.Eval(1)
+			bad := ""
+			switch {
+			case got != w.accepted:
+				bad = fmt.Sprintf("returned n=%d but the descriptor accepted %d bytes", got, w.accepted)
+			case werr != w.firstErr:
+				bad = fmt.Sprintf("returned err=%v, the descriptor's first error was %v", werr, w.firstErr)
+			case mustFail && werr == nil:
+				bad = "no error reported although the destination cannot take the module"
+			case w.after > 0:
+				bad = fmt.Sprintf("%d writes delivered bytes after the first failure", w.after)
+			}
+			if bad != "" {
+				r.Violate(fw.Violation{Key: "real-destination/" + kind + "/" + s.ID, Input: text, What: kind + ": " + bad})
+				return
+			}
+			r.Tally("real-destinations", kind+":ok")
+			r.Nontrivial("real/" + kind + "/" + s.ID)
+		}
+		// /dev/full
+		if f, err := os.OpenFile("/dev/full", os.O_WRONLY, 0); err == nil {
+			w := &recFile{f: f}
+			var got int64
+			var werr error
+			fw.Guard(func() { got, werr = m.WriteTo(w) })
+			f.Close()
+			judge("dev-full", w, got, werr, true)
+		}
+		// a pipe whose reader reads k bytes and goes away
+		for _, k := range []int{0, 1, len(T) / 2} {
+			pr, pw, err := os.Pipe()
+			if err != nil {
+				break
+			}
+			done := make(chan struct{})
+			go func() {
+				buf := make([]byte, 1)
+				for i := 0; i < k; i++ {
+					if _, err := pr.Read(buf); err != nil {
+						break
+					}
+				}
+				pr.Close()
+				close(done)
+			}()
+			if k == 0 {
+				<-done // reader gone before the first byte
+			}
+			w := &recFile{f: pw}
+			var got int64
+			var werr error
+			// the module is written often enough to overrun any pipe buffer
+			fw.Guard(func() {
+				for rep := 0; rep < 1+(1<<20)/len(T) && werr == nil; rep++ {
+					var g int64
+					g, werr = m.WriteTo(w)
+					got += g
+				}
+			})
+			<-done
+			pw.Close()
+			judge(fmt.Sprintf("pipe-reader-gone-after-%s", map[int]string{0: "0", 1: "1", len(T) / 2: "half"}[k]), w, got, werr, true)
+		}
+		// a closed file
+		if f, err := os.CreateTemp(r.Ctx().Scratch, "c19closed"); err == nil {
+			f.Close()
+			w := &recFile{f: f}
+			var got int64
+			var werr error
+			fw.Guard(func() { got, werr = m.WriteTo(w) })
+			os.Remove(f.Name())
+			judge("closed-file", w, got, werr, true)
+		}
+		// a file that takes everything
+		if f, err := os.CreateTemp(r.Ctx().Scratch, "c19ok"); err == nil {
+			w := &recFile{f: f}
+			var got int64
+			var werr error
+			fw.Guard(func() { got, werr = m.WriteTo(w) })
+			f.Close()
+			b, _ := os.ReadFile(f.Name())
+			os.Remove(f.Name())
+			judge("regular-file", w, got, werr, false)
+			if string(b) != T {
+				r.Violate(fw.Violation{Key: "real-destination/regular-file-content/" + s.ID, Input: text, What: "the file written by WriteTo differs from String(): " + firstDiffLines(T, string(b))})
+			}
+		}
+	}
 }
